@@ -457,7 +457,13 @@ def register(props):
                      "inspection: C05_client_payload_parametric - for every f : P -> Q, mapping f over every payload held in a "
                      "client state commutes with every step of every label of ATP/Client.v - and C05_client_over_values - the "
                      "executions of the client model at payload := gval on the session as stated are exactly the images of the "
-                     "token executions. Version 1: C05_v1_concurrent_refuted (D26) and C05_v1_serial - under serial use (an "
+                     "token executions; C05_value_level_is_image - ATP/SystemVal.v is the composition as a transition system of its own "
+                     "with the client at payload := gval (real values in the callers, on the wire, in the results; the server model "
+                     "is handed each message under the name of its run id's call) and its executions ARE the images of the token "
+                     "executions, label for label (free theorem + invS + SigInv: a signal carries its caller's input), hence "
+                     "C05_transparent_values (the end-to-end statement verbatim for the value-level system) and C05_value_wire "
+                     "(every work-start in the value-level pipe carries the input value of the call its run id names). Version 1: "
+                     "C05_v1_concurrent_refuted (D26) and C05_v1_serial - under serial use (an "
                      "Execute starts only while none is in flight; every serial execution is an execution of the v1 model) every "
                      "reachable state has result i = CallStep(input i), and when no step fails every maximal serial execution "
                      "returns them all. Non-vacuity by vm_compute to final states: 3 overlapping calls with read-ahead, without "
@@ -469,11 +475,11 @@ def register(props):
                      "The interpreter (Interp/RunAtpxp.v) predicts each Execute result as cbor_norm of the recorded in-process "
                      "result; the harness re-checks that record against CallStep at run time (inproc-agrees); lib/props_c05.py "
                      "re-implements the normalisation for the direct check. Nothing of the plan is left unproved; what remains are "
-                     "MODELLING LIMITS of the statements: (1) the value level is an interpretation of the token system (names -> "
-                     "values), not a second transition system: its client half is the theorem C05_client_over_values; for the server "
-                     "half there is nothing to prove inside the model - ATP/Server.v takes the payload as an opaque token and "
-                     "consults it only through its behaviour oracle - and that the real server does so is the C07 correspondence, "
-                     "not a C05 theorem; every Execute of the client model calls step id \"s\" (unknown step ids are the behaviour "
+                     "MODELLING LIMITS of the statements: (1) in the value-level system the SERVER component still holds values by "
+                     "name (ATP/Server.v is not parametric: it takes the payload as an opaque token and consults it only through "
+                     "its behaviour oracle, which v_scfg defines as CallStep on the decoded input value of the named call; that the "
+                     "value crossing the pipe is that input is proved - C05_value_wire - but that the real server treats the "
+                     "payload that way is the C07 correspondence, not a C05 theorem); every Execute of the client model calls step id \"s\" (unknown step ids are the behaviour "
                      "BFails); a signal carries its call's token; (2) run ids must be non-empty: Execute itself rejects a blank run "
                      "id before anything is written (atp/client.go), which the client model does not represent; (3) Close's first "
                      "step is enabled once every Execute of the session has written its work-start (the harness contract of C06): a "
